@@ -301,7 +301,7 @@ func (x *exporter) mergeValues(label adt.Feature, src *adt.Vertex, a []conjunct,
 
 func (e *conjuncts) wrapCloseIfNecessary(s *ast.StructLit, v *adt.Vertex) ast.Expr {
 	if !e.hasEllipsis && v != nil && v.ClosedNonRecursive {
-		return ast.NewCall(ast.NewIdent("close"), s)
+		return ast.NewCall(ast.NewPredeclared("close"), s)
 	}
 	return s
 }
